@@ -283,6 +283,9 @@ def bfs(exprs, max_depth=None):
     """BFS traversal of s-expressions in exprs up to a maximum depth."""
     if isinstance(exprs, Node):
         yield exprs
+        if exprs.is_leaf():
+            # iterating over a leaf gives the characters of its text
+            return
     visit = collections.deque()
     visit.extend([(1, x) for x in exprs])
     while visit:
